@@ -9,6 +9,18 @@ CHECKS = {
  "C02": dict(engine="hist", cat="model_checking", tech="explicit-state BFS over operation histories on the real DhtCoreEngine (rebuild-by-replay), reference-model oracle on every state",
    text="Every join/add/failure/eviction history up to the fix-point of an 8-id alphabet (thorough: 12 ids), every bucket-occupancy vector over {0,1,8}^5, and the full-bucket overflow sequences are executed on the real engine; after every transition every target key x count is asked through find_nodes and the FindNode/FindValue request handlers and compared with a sorted-set reference. Right level: the property quantifies over table histories and (key,count) inputs, which is exactly the enumerated space.",
    note="8-bit id space (ids differ from the local id in byte 0); LogOnly validation; reply path of DhtNetworkManager covered separately (netsim part).", ref="3/C02"),
+ "C06": dict(engine="crash", cat="fault_enumeration", tech="exhaustive crash-point and torn-write enumeration over operation histories of the real PersistentStateManager, reference-model oracle, second crash/restart cycle",
+   text="Every history over {upsert, delete, batch(2), checkpoint} up to the tier length (quick 4, thorough 5) is executed on the real manager under several flush/rotation/clock configurations; every instrumented step of write/rotate/checkpoint inside the last operation and every byte-prefix of every append is a crash image; each image is reopened by a fresh manager and compared with the prefix-closed reference model; from every recovered state every one-operation extension plus clean restart is run and transaction ids inspected. Right level: the property quantifies over crash points and histories.",
+   note="crash model = process death (written bytes survive in order); virtual wall clock through the timestamp hook; batch = one operation.", ref="3/C06"),
+ "C07": dict(engine="crash", cat="fault_enumeration", tech="exhaustive single-site (thorough: pairwise) damage enumeration over every byte of every log/snapshot file of enumerated histories, recovery judged against the fold of surviving records",
+   text="For the final directory image of every enumerated history, every damage from a fixed menu (bit flips, byte set/delete/insert, truncation at every offset, length-prefix substitutions, duplicated/moved/foreign records at every boundary, trailing garbage) is applied, the directory reopened by a fresh manager, and no-panic / reported / genuine-values / records-before / records-after / memory clauses evaluated. Right level: the property quantifies over corruptions of short histories.",
+   note="report required only where the damage leaves a malformed or unverifiable record/snapshot; peak memory via counting allocator on the recovering thread.", ref="3/C07"),
+ "C08": dict(engine="inputs", cat="exploration", tech="bounded-exhaustive input enumeration (every single-bit flip of message, signature and key; all ordered identity pairs; window edges; all threshold signature lists) on the ship build",
+   text="Built with debug assertions off (real ML-DSA-65). For each identity origin and each verifying entry point: the positive case, every single-bit flip of message, signature (26 472) and public key (15 616), every ordered cross-key pair, validity-window edges, checksum variants, all delegated key lists of 0..3 keys and all threshold signature lists for n<=3. Right level: the property is a universally quantified statement over inputs whose interesting neighbourhood (one-bit changes, foreign keys) is finite and is enumerated completely.",
+   note="start-up self-check refuses to run unless the real ML-DSA path is active; messages of the listed lengths only.", ref="3/C08"),
+ "C09": dict(engine="hist", cat="model_checking", tech="explicit-state BFS over presentation histories to a real SignatureCache (fix-point for capacities 1 and 16, depth-bounded for 2 and 3) with a differential oracle verify_cached == verify_signature, plus exhaustive field- and bit-level mutation of signed records",
+   text="142 field-level mutants and every single-bit flip of the signable encoding of genuine records must fail verification; all histories over a 9-record alphabet (genuine, colliding and non-colliding forgeries) presented to one cache must give the direct-verification verdict at every step; construction bounds grid. Ship build. Right level: the cache clause quantifies over histories, which the BFS enumerates to a fix-point.",
+   note="eviction order for capacities 2 and 3 follows HashMap iteration and is not owned: failures found there are genuine, absence is not claimed exhaustive.", ref="3/C09"),
 }
 NOT_YET = {}
 def main():
